@@ -3,6 +3,8 @@ import KoordVerif.Model.C06
 import KoordVerif.Model.C06Pick
 import KoordVerif.Model.C06Alloc
 import KoordVerif.Model.C06Events
+import KoordVerif.Model.C06Nrt
+import KoordVerif.Model.C06Restore
 /-
 Driver for C06.  Op lines (integer tokens):
 
@@ -43,6 +45,16 @@ Driver for C06.  Op lines (integer tokens):
   eupd <node> <uid> <excl> <nc> cpu… <nn> (cell amt)…     -> events dump   (resourceManager.Update on that cluster node: Reserve)
   erel <node> <uid>                                       -> events dump   (resourceManager.Release: Unreserve)
   esel <node>                                             (continue with the ledger of that cluster node: alloc / commit / dump)
+  nrt <most> <nt> (cpu core node socket)… <ns> (managed hasUID cpusOK <n> cpu…)… <nk> kubeletReserved… <nn> nodeReserved…
+      <sysqExclusive> <nq> sysqCPUs… <nz> (kind id cpuMilli|-1 memMilli|-1)…
+                                                          -> nrt <numCPUs> <numCores> <numNodes> <numSockets> <nr> reserved… <ncap> (cell capacity)…
+                                                           (NodeResourceTopology event → NewTopologyOptions; the details are the REPORTED
+                                                            ones, core ids are re-encoded socket<<16|core; becomes the context of the
+                                                            following alloc / ralloc / commit / rel ops; resets the ledger)
+  ralloc <uid> <nh> h… <nreq> (dim milli)… <nm> (rsv <no> owner…)… <nu> (rsv <no> owner…)… <nominated rsv|-1>
+                                                          -> rfilter <0|1> / ralloc 0 | ralloc 1 <ncell> (cell amt)…
+                                                           (a pod without cpu bind through RestoreReservation → Filter → Reserve with
+                                                            matched / unmatched reservations = (reserve pod uid, owner uids))
 ledger dump = `pods u…` / `cpus (c ref excl)…` / `res (cell amt)…` (non-zero) / `avail c…`,
 every list sorted by key.  All amounts in milli-units.
 -/
@@ -212,6 +224,97 @@ def runAlloc (c : Ctx) : List Int → Ctx × List String
     | none => (c, ["bad-op"])
   | _ => (c, ["bad-op"])
 
+/-- `<n> (managed hasUID cpusOK <k> cpu…)…` -/
+partial def parseStatic (n : Nat) (ts : List Int) (acc : List StaticPod) : Option (List StaticPod × List Int) :=
+  match n with
+  | 0 => some (acc.reverse, ts)
+  | n+1 =>
+    match ts with
+    | m :: u :: ok :: rest =>
+      match takeBlock 1 rest with
+      | some (cs, rest) =>
+        if cs.any (· < 0) then none else
+        parseStatic n rest ({ managed := m ≠ 0, hasUID := u ≠ 0, cpusOK := ok ≠ 0, cpus := cs.map Int.toNat } :: acc)
+      | none => none
+    | _ => none
+
+def zonesOf : List Int → List Zone
+  | k :: id :: c :: m :: rest =>
+    { kind := k.toNat, id := id.toNat, cpu := if c < 0 then none else some c, mem := if m < 0 then none else some m } ::
+      zonesOf rest
+  | _ => []
+
+def runNrt (c : Ctx) : List Int → Ctx × List String
+  | most :: rest =>
+    match takeBlock 4 rest with
+    | some (t, ns :: rest) =>
+      if ns < 0 then (c, ["bad-op"]) else
+      match parseStatic ns.toNat rest [] with
+      | some (static, rest) =>
+        match takeBlock 1 rest with
+        | some (kub, rest) =>
+          match takeBlock 1 rest with
+          | some (nrsv, sx :: rest) =>
+            match takeBlock 1 rest with
+            | some (sq, rest) =>
+              match takeBlock 4 rest with
+              | some (zs, []) =>
+                if t.any (· < 0) || kub.any (· < 0) || nrsv.any (· < 0) || sq.any (· < 0) then (c, ["bad-op"]) else
+                let topo := (quads t).map fun i => { i with core := i.socket * 65536 + i.core }
+                let reserved := nrtReserved static (kub.map Int.toNat) (nrsv.map Int.toNat) (sq.map Int.toNat) (sx ≠ 0)
+                let cfg := nrtCfg topo (most ≠ 0) reserved (zonesOf zs)
+                let c' : Ctx := { maxRef := 1, topo := topo.map (·.cpu), reserved := reserved, L := Ledger.empty,
+                                  cfg := cfg, last := none }
+                (c', [s!"nrt {topo.length} {nrtNumCores topo} {nrtNumNodes topo} {nrtNumSockets topo} " ++
+                        s!"{reserved.length}" ++ String.join ((sortNat reserved).map fun x => s!" {x}") ++
+                        s!" {cfg.caps.length}" ++ showCells cfg.caps])
+              | _ => (c, ["bad-op"])
+            | none => (c, ["bad-op"])
+          | _ => (c, ["bad-op"])
+        | none => (c, ["bad-op"])
+      | none => (c, ["bad-op"])
+    | _ => (c, ["bad-op"])
+  | _ => (c, ["bad-op"])
+
+/-- `<n> (rsv <no> owner…)…` -/
+partial def parseRsvs (n : Nat) (ts : List Int) (acc : List Rsv) : Option (List Rsv × List Int) :=
+  match n with
+  | 0 => some (acc.reverse, ts)
+  | n+1 =>
+    match ts with
+    | u :: rest =>
+      match takeBlock 1 rest with
+      | some (os, rest) =>
+        if u < 0 || os.any (· < 0) then none else
+        parseRsvs n rest ({ uid := u.toNat, owners := os.map Int.toNat } :: acc)
+      | none => none
+    | _ => none
+
+def runRalloc (c : Ctx) : List Int → Ctx × List String
+  | uid :: rest =>
+    match takeBlock 1 rest with
+    | some (hint, rest) =>
+      match takeBlock 2 rest with
+      | some (reqs, nm :: rest) =>
+        if nm < 0 || uid < 0 || hint.any (· < 0) then (c, ["bad-op"]) else
+        match parseRsvs nm.toNat rest [] with
+        | some (m, nu :: rest) =>
+          if nu < 0 then (c, ["bad-op"]) else
+          match parseRsvs nu.toNat rest [] with
+          | some (um, [nom]) =>
+            let q : RsvReq := { uid := uid.toNat, hint := hint.map Int.toNat, reqs := pairs reqs, matched := m,
+                                unmatched := um, nominated := if nom < 0 then none else some nom.toNat }
+            let f := filterRsv false c.cfg c.L q
+            match reserveRsv false c.cfg c.L q with
+            | none => ({ c with last := none }, [s!"rfilter {b2i f}", "ralloc 0"])
+            | some p => ({ c with last := some p },
+                         [s!"rfilter {b2i f}", s!"ralloc 1 {p.numa.length}" ++ showCells p.numa])
+          | _ => (c, ["bad-op"])
+        | _ => (c, ["bad-op"])
+      | _ => (c, ["bad-op"])
+    | none => (c, ["bad-op"])
+  | _ => (c, ["bad-op"])
+
 def parseSnap : List Int → Option (PodObj × List Int)
   | uid :: node :: term :: st :: sp :: cs :: excl :: rest => do
     let (cpus, rest) ← takeBlock 1 rest
@@ -255,6 +358,8 @@ def runLine (c : Ctx) (line : String) : Ctx × List String :=
       | "take" => (c, runTake xs)
       | "cfg" => runCfg c xs
       | "alloc" => runAlloc c xs
+      | "nrt" => runNrt c xs
+      | "ralloc" => runRalloc c xs
       | "opts" =>
         match xs with
         | [] => (c, ["opts" ++ showCells c.cfg.capacity])
